@@ -243,6 +243,23 @@ def model_inputs(E, model):
     return out
 
 
+def _input_eqs(E, model):
+    """equalities fixing every symbolic input to its value in `model` (used to ask for a different counterexample)"""
+    eqs = []
+    for name, (kind, v) in E.inputs.items():
+        try:
+            if kind == "str":
+                n = model.eval(v.e.n, model_completion=True)
+                eqs.append(v.e.n == n)
+                for i in range(min(n.as_long(), v.e.cap)):
+                    eqs.append(v.e.b[i] == model.eval(v.e.b[i], model_completion=True))
+            elif kind in ("int", "bool"):
+                eqs.append(v.e == model.eval(v.e, model_completion=True))
+        except Exception:  # noqa: BLE001
+            continue
+    return eqs or [z3.BoolVal(True)]
+
+
 def solve_query(qfn, files, tier, K=6, N=24, timeout_ms=120000, native_map=None, lits=None, overrides=None, log=None, logic="QF_BV"):
     """Run one query symbolically and discharge its obligations.
     Returns dict(result=PASS|FAIL|INCONCLUSIVE, obligations=[...], ...)"""
@@ -325,7 +342,25 @@ def solve_query(qfn, files, tier, K=6, N=24, timeout_ms=120000, native_map=None,
                     res.update(result="INCONCLUSIVE", reason="unwinding obligation satisfiable (bound too small): %s" % ob.label)
             else:
                 entry["status"] = "COUNTEREXAMPLE"
-                res["counterexamples"].append({"obligation": ob.label, "kind": ob.kind, "inputs": mi})
+                # a few further, different models of the same violated obligation: if the first one does not replay on the real
+                # code (a model/stub looser than reality), the others are tried before the run is declared inconclusive
+                alts = []
+                try:
+                    cur = s.model()
+                    s.push()
+                    s.set("timeout", 60000)
+                    for _ in range(4):
+                        s.add(z3.Not(z3.And(_input_eqs(E, cur))))
+                        if s.check() != z3.sat:
+                            break
+                        cur = s.model()
+                        alts.append(model_inputs(E, cur))
+                except Exception:  # noqa: BLE001
+                    pass
+                finally:
+                    s.set("timeout", timeout_ms)
+                    s.pop()
+                res["counterexamples"].append({"obligation": ob.label, "kind": ob.kind, "inputs": mi, "alternates": alts})
                 res["result"] = "FAIL"
                 res["reason"] = "%s: %s" % (ob.kind, ob.label)
         else:
